@@ -276,3 +276,74 @@ func checkLoad(variant string) (msg, src string) {
 }
 
 var loadVariants = []string{"load-first", "after-a-call", "after-operators", "after-a-good-load", "after-blank-lines"}
+
+// checkProbes: a host built-in that asks the thread for its call stack (what a
+// print or logging handler does) is called several times in a row from one
+// function, in one execution; each time the caller's frame must be at the
+// '(' of that very call, and the frames below it at their call sites.
+func checkProbes(variant string) (msg, src string) {
+	var calls []*Node
+	p := func() *Node { c := Call(Name("where")); calls = append(calls, c); return c }
+	var body []*Node
+	switch variant {
+	case "statements":
+		for i := 0; i < 5; i++ {
+			body = append(body, ExprS(p()))
+		}
+	case "one-expression":
+		body = append(body, Assign("=", Name("y"), List(p(), p(), Tuple(p(), p()), Bin("+", p(), p()))))
+	case "loop":
+		body = append(body, For(Name("i"), List(Num(1), Num(2), Num(3)), []*Node{ExprS(p()), ExprS(p())}))
+	case "mixed-with-failing-free-code":
+		body = append(body, ExprS(p()), Assign("=", Name("q"), Bin("+", Num(1), Num(2))), ExprS(p()), Assign("=", Name("q"), Index(List(Num(1)), Num(0))), ExprS(p()))
+	default:
+		return "harness: unknown probe variant " + variant, ""
+	}
+	body = append(body, Return(Num(0)))
+	outer := Call(Name("g"))
+	stmts := []*Node{Def("g", nil, body), Def("f", nil, []*Node{Return(outer)}), Assign("=", Name("r"), Call(Name("f")))}
+	top := stmts[2].Kids[1]
+	src = Render(stmts)
+	type rec struct{ stack []string }
+	var got [][]string
+	where := starlark.NewBuiltin("where", func(th *starlark.Thread, _ *starlark.Builtin, _ starlark.Tuple, _ []starlark.Tuple) (starlark.Value, error) {
+		var s []string
+		for _, fr := range th.CallStack() {
+			s = append(s, fmt.Sprintf("%s@%d:%d", fr.Name, fr.Pos.Line, fr.Pos.Col))
+		}
+		// and the single-frame accessor
+		s = append(s, fmt.Sprintf("CallFrame(1)=%s@%d:%d", th.CallFrame(1).Name, th.CallFrame(1).Pos.Line, th.CallFrame(1).Pos.Col))
+		got = append(got, s)
+		return starlark.MakeInt(len(got)), nil
+	})
+	th := &starlark.Thread{Name: "c16"}
+	if _, err := starlark.ExecFileOptions(fileOpts, th, "p.star", src, starlark.StringDict{"where": where}); err != nil {
+		return "harness: probe program failed: " + err.Error(), src
+	}
+	// expected order of the probe calls = order of execution: for the loop variant each pair repeats
+	order := calls
+	if variant == "loop" {
+		order = nil
+		for i := 0; i < 3; i++ {
+			order = append(order, calls...)
+		}
+	}
+	if len(got) != len(order) {
+		return fmt.Sprintf("harness: %d probe calls recorded, %d expected", len(got), len(order)), src
+	}
+	for i, c := range order {
+		want := []string{
+			fmt.Sprintf("<toplevel>@%d:%d", top.OpPos.Line, top.OpPos.Col),
+			fmt.Sprintf("f@%d:%d", outer.OpPos.Line, outer.OpPos.Col),
+			fmt.Sprintf("g@%d:%d", c.OpPos.Line, c.OpPos.Col),
+			"where@0:0",
+			fmt.Sprintf("CallFrame(1)=g@%d:%d", c.OpPos.Line, c.OpPos.Col),
+		}
+		if strings.Join(got[i], " ") != strings.Join(want, " ") {
+			return fmt.Sprintf("call number %d of the built-in that inspects the call stack: the thread reports [%s], true [%s]", i+1, strings.Join(got[i], " "), strings.Join(want, " ")), src
+		}
+	}
+	return "", src
+}
+
+var probeVariants = []string{"statements", "one-expression", "loop", "mixed-with-failing-free-code"}
